@@ -837,6 +837,13 @@ impl KotoVm {
                 }
                 Err(error) => match self.pop_call_stack_on_error(error.clone(), true) {
                     Ok((recover_register, ip)) => {
+                        // The failed instruction might have truncated the value stack while
+                        // preparing a call, so ensure that the frame's registers are available.
+                        if self.registers.len() < self.min_frame_registers {
+                            self.registers
+                                .resize(self.min_frame_registers, KValue::Null);
+                        }
+
                         let catch_value = match error.error {
                             ErrorKind::KotoError { thrown_value, .. } => thrown_value,
                             _ => KValue::Str(error.to_string().into()),
